@@ -584,4 +584,12 @@ example : applyOp CaseOps.py (.pathSet (some ['K']) (.atom (.num 1 1 1)))
     (.node 0 .instanceName [.atom (.str ['C']), .dict 1 [(some ['k'], .none)], .none, .none])
     = .node 0 .instanceName [.atom (.str ['C']), .dict 1 [(some ['K'], .atom (.num 1 1 1))], .none, .none] := by rfl
 
+/-- `__hash__` of every class reads only public attributes that are slots (never a raw `_slot`, whose value may
+    still be the lazily-initialised None while the public attribute already shows the empty NocaseDict), and hashes
+    every slot `__eq__` compares: the hash is a function of exactly what `==` looks at, at any time -/
+theorem C05_hash_reads_public_attributes : ∀ k : Kind,
+    (((Pywbem.Generated.Slots.hashCalls.lookup k.pyName).getD []).all (fun p => (slotsOf k).contains p.1)) = true ∧
+    hashSpec k = eqSpec k := by
+  intro k; cases k <;> decide
+
 end C05
